@@ -4,27 +4,34 @@ case      {"loop": select|asyncio|tornado|twisted|trio|zmq, "screen": raw|legacy
            "bp": bool, "focus": bool, "sigs": custom|default, "size": [cols, rows],
            "handled": [key names / "mouse<button>" the widget handles itself],
            "filter": {"drop": [keys], "map": [[from, to], ...]},
-           "script": [event, ...], "inject": null | [i, "exit"|"boom"]}
+           "script": [event, ...], "inject": null | [i, "exit"|"boom"|"abort", callback kind]}
           events: ["keys", k1, k2, ...] (written to the terminal with one write), ["mouse", button, col, row],
           ["resize", cols, rows] (TIOCSWINSZ + SIGWINCH), ["alarm"] (set_alarm_in 10 ms), ["pipe"] (a write
           to a watch_pipe descriptor), ["file"] (a write to a pipe watched with watch_file).  The last event
           is always the key 'q', which the unhandled-input handler answers with ExitMainLoop.
 
-run       One forked child per case.  The child opens a pty pair, gives the slave side to a real
-          ``urwid.display.raw.Screen`` (subclassed only to report "draw_screen() returned"), builds the loop, a
-          probe widget and a MainLoop, and calls ``run()``.  Every user callback (input filter, widget keypress /
-          mouse_event / render, unhandled-input handler, alarm, watch_file, watch_pipe) appends to one log and
-          bumps one invocation counter; invocation number ``i`` raises the injected exception.  The session is
-          causally chained: the next scripted event is produced only when the screen has just been drawn (or at
-          the end of an alarm / pipe / file callback) and the previous event has been seen by the input filter, so
-          no real-time delay carries any meaning.  After run() the child reads everything the terminal received
-          and reports log, outcome of run(), screen.started, termios of the slave before/after, the three signal
-          handlers before/after, and the terminal bytes (per draw and final).
+run       One forked child per case.  The child opens a pty pair, gives the slave side (two descriptors of their
+          own, like stdin / stdout) to a real ``urwid.display.raw.Screen`` (subclassed only to report
+          "draw_screen() returned"), builds the loop, a probe widget and a MainLoop, and calls ``run()``.  Every
+          user callback (input filter, widget keypress / mouse_event / render, unhandled-input handler, alarm,
+          watch_file, watch_pipe) appends to one log and bumps one invocation counter; the injection
+          ``[i, exception, kind]`` makes the first invocation >= i that is a `kind` callback raise (i is where the
+          counting run saw that callback; tornado adds or drops an idle redraw from run to run).  The session is
+          causally chained: the next scripted event is produced only when the screen has just been drawn (alarms:
+          when the previous event reaches its callback, never from a draw) and the previous event has been seen
+          by the input filter, so no real-time delay carries any meaning.  After run() the child reads
+          everything the terminal received and reports the log, the outcome of run(), screen.started, termios of
+          the slave before/after, the three signal handlers before/after and the terminal bytes (per draw, final).
+          No callback for STALL seconds = the child reports a stall instead.
 
-oracle    check_report(): see the clause names there.  The terminal bytes are interpreted by the reference
-          terminal ``vlib.vtmodel.VT``; at every completed draw it must show the probe widget's current state
-          (a screen full of one letter that changes with every input event the widget receives), and after
-          run() it must be in its power-on modes.
+oracle    check_report() -> every failing clause:
+            input-order / call-order / call-missing / call-unexpected   filter -> widget -> unhandled handler
+            draw-not-current, no-redraw-before-wait                     the reference terminal shows the state
+            exit-not-clean, exception-swallowed, exception-changed, run-did-not-end, spurious-end
+            screen-still-started, termios-not-restored, signal-not-restored:<SIG>, terminal-modes-not-restored
+          The terminal bytes are interpreted by the reference terminal ``vlib.vtmodel.VT``; at every completed
+          draw it must show the probe widget's current state (a screen full of one letter that changes with every
+          input event the widget receives), and after run() it must be in its power-on modes.
 """
 from __future__ import annotations
 
@@ -55,9 +62,11 @@ RULE = (
     "(2-8 events). Units: every session x {select, asyncio, tornado, twisted, trio, zmq} on the raw screen + "
     "the default loop on a screen without hook_event_loop (MainLoop._run_screen_event_loop), pop_ups and the "
     "other flags alternating (quick) or crossed (thorough). For every unit the session is first run without "
-    "injection to learn its N user-callback invocations; then one run per (i < N) x {ExitMainLoop, Boom} with "
-    "the exception raised by invocation i. Each run is a forked child on a fresh pty pair. Non-trivial: the "
-    "injection hits an invocation other than the first; distinct = distinct (unit, i, kind)."
+    "injection to learn its N user-callback invocations; then one run per (i < N) x {ExitMainLoop, "
+    "Boom(Exception), SystemExit (quick: every other i)} with the exception raised by invocation i. Each run is "
+    "a forked child on a fresh pty pair. Non-trivial: the injection hits an invocation other than the first on "
+    "a loop other than SelectEventLoop-with-raw-screen; distinct = distinct (unit, i, kind). A failing case is "
+    "shrunk greedily (plain flags, fewer events, earlier injection)."
 )
 ASSUMPTIONS = [
     "the Linux pty line discipline stands for the terminal; vlib.vtmodel.VT interprets the bytes urwid wrote "
@@ -67,8 +76,9 @@ ASSUMPTIONS = [
     "unhook_event_loop",
     "the next scripted event is produced only after a completed draw (or at the end of an alarm / pipe / file "
     "callback), so 'the loop next waits' is the point where nothing else can happen: a session that makes no "
-    "progress for STALL seconds twice in a row (second time with a longer limit) is taken as 'the loop "
-    "waited'; a child that exceeds CHILD_LIMIT is inconclusive (discarded)",
+    "progress for 1 s and, run again, for 4 s is taken as 'the loop waited' (a stall that matches a listed "
+    "finding is not run again); a stall that cannot be attributed, or a child that exceeds 14 s, is inconclusive "
+    "(discarded, counted)",
     "SIGINT is not asserted (Twisted's reactor keeps its own handler after crash()); only the three signals "
     "the Screen installs (SIGWINCH, SIGTSTP, SIGCONT) are compared",
     "callbacks that run after the first exception, the return value of unhandled_input, filter calls with an "
@@ -87,6 +97,8 @@ KEYS = {
     "up": "\x1b[A", "down": "\x1b[B", "f5": "\x1b[15~", "page up": "\x1b[5~", "meta a": "\x1ba",
     "ctrl l": "\x0c",
 }
+EXC_NAME = {"exit": "ExitMainLoop", "boom": "Boom", "abort": "SystemExit"}
+CALLBACKS = ("filter", "key", "mouse", "unh", "alarm", "file", "pipe", "render")
 REDRAW_KEY = "ctrl l"  # the documented Command.REDRAW_SCREEN binding
 
 _STATS: dict[str, int] = {}
@@ -99,6 +111,9 @@ def _stat(k, n=1):
 
 class Boom(Exception):
     """the 'any other exception' of the property"""
+
+
+Abort = SystemExit  # ... and one that is not an Exception subclass: a callback calling sys.exit()
 
 
 # ---------------------------------------------------------------------------------------------
@@ -141,10 +156,6 @@ def widget_handles(case, item):
 # the child
 
 
-class _Stalled(BaseException):
-    pass
-
-
 def _jsonable(x):
     if isinstance(x, (list, tuple)):
         return [_jsonable(y) for y in x]
@@ -163,7 +174,6 @@ class _Harness:
         self.n = 0
         self.inject = case.get("inject")
         self.exc = None
-        self.first_raise = None
         self.script = case["script"]
         self.pos = 0
         self.outstanding = None
@@ -171,7 +181,6 @@ class _Harness:
         self.ml = None
         self.pipe_wr = None
         self.file_rd = self.file_wr = None
-        self.chunks_pending = bytearray()
         self.phase = "setup"
 
     # -- plumbing ---------------------------------------------------------------------------
@@ -198,8 +207,12 @@ class _Harness:
         i = self.n
         self.n += 1
         self.log.append([kind, i, *[_jsonable(d) for d in detail]])
-        if self.inject is not None and self.inject[0] == i and self.exc is None:
-            self.exc = ExitMainLoop() if self.inject[1] == "exit" else Boom(f"injected at invocation {i} ({kind})")
+        inj = self.inject
+        # [i, exception, kind]: the first invocation number >= i that is a `kind` callback (the counting run saw
+        # `kind` at exactly i; loops that add or drop an idle redraw from run to run shift the numbering)
+        if inj is not None and self.exc is None and i >= inj[0] and (len(inj) < 3 or inj[2] == kind):
+            cls = {"exit": ExitMainLoop, "boom": Boom, "abort": Abort}[inj[1]]
+            self.exc = cls() if cls is ExitMainLoop else cls(f"injected at invocation {i} ({kind})")
             self.log.append(["raise", i, self.inject[1], kind])
             raise self.exc
 
@@ -507,7 +520,13 @@ def run_in_child(case, stall):
             try:
                 out = _child_body(case, stall, emit)
             except BaseException as e:  # noqa: BLE001
-                out = {"harness_error": "".join(traceback.format_exception(e))[-3000:]}
+                from vlib.runner import innermost_is_urwid, urwid_frame
+
+                text = "".join(traceback.format_exception(e))[-3000:]
+                if innermost_is_urwid(e):  # urwid raised outside run() (building the loop, registering a watch)
+                    out = {"urwid_error": f"exception:{type(e).__name__}@{urwid_frame(e)}", "text": text}
+                else:
+                    out = {"harness_error": text}
             signal.setitimer(signal.ITIMER_REAL, 0)
             emit(out)
         except BaseException:  # noqa: BLE001
@@ -579,7 +598,8 @@ def check_report(case, rep):
                 who = e[3]
                 if who == "render":
                     # PopUpTarget renders from keypress / mouse_event too; otherwise render runs from the idle redraw
-                    who = "render called while input was being processed" if queue else "render during the idle redraw"
+                    owed = [q for q in queue if q[0] != "unh?"]
+                    who = "render called while input was being processed" if owed else "render during the idle redraw"
                 who = f"{who} (invocation {e[1]})"
             continue
         if kind == "inject":
@@ -680,10 +700,10 @@ def check_report(case, rep):
         if raised is not None:
             return [Violation(
                 "run-did-not-end",
-                f"{who} raised {raised[2]} but run() went on waiting; log: {_fmt(log)}",
+                f"{who} raised {EXC_NAME[raised[2]]} but run() went on waiting; log: {_fmt(log)}",
             )]
         o = rep.get("outstanding")
-        if o is None and drawn_state != state:
+        if o is None and state > 0 and drawn_state != state:
             return [Violation(
                 "no-redraw-before-wait",
                 f"the widget reached state {state}, the last completed draw showed state {drawn_state}, and the "
@@ -708,12 +728,13 @@ def check_report(case, rep):
             ))
     elif out["how"] == "returned":
         found.append(Violation(
-            "exception-swallowed", f"{who} raised Boom; run() returned normally; log: {_fmt(log)}"
+            "exception-swallowed", f"{who} raised {EXC_NAME[raised[2]]}; run() returned normally; log: {_fmt(log)}"
         ))
     elif not out["same"]:
         found.append(Violation(
             "exception-changed",
-            f"{who} raised Boom; run() raised a different object {out['type']}: {out['text']} (from {out['where']})",
+            f"{who} raised {EXC_NAME[raised[2]]}; run() raised a different object {out['type']}: {out['text']} "
+            f"(from {out['where']})",
         ))
     # restoration, on every exit path
     via = f"after {raised[2]} from {who}"
@@ -783,6 +804,8 @@ def check_case(case):
             raise Discard()
         if "harness_error" in rep:
             raise RuntimeError("child harness error:\n" + rep["harness_error"])
+        if "urwid_error" in rep:
+            raise Violation(rep["urwid_error"], rep["text"][-1200:])
         if not rep["stalled"]:
             break
         _stat(f"{name}:stalled")
@@ -792,7 +815,7 @@ def check_case(case):
     _LAST.update(n=rep["n"], log=rep["log"], stalled=rep["stalled"])
     inj = case.get("inject")
     if inj is not None:
-        hit = [e for e in rep["log"] if e[0] == "raise" and e[1] == inj[0]]
+        hit = [e for e in rep["log"] if e[0] == "raise" and e[1] >= inj[0] and e[2] == inj[1]]
         _stat(f"inject:{inj[1]}@{hit[0][3] if hit else 'not-reached'}")
     r = check_report(case, rep)
     if r == "stall-unattributed":
@@ -885,13 +908,67 @@ def units(ctx):
     return out
 
 
+def _nontrivial(case):
+    inj = case.get("inject")
+    return inj is not None and inj[0] > 0 and (case["loop"] != "select" or case["screen"] == "legacy")
+
+
+def _still_fails(case, clause):
+    try:
+        check_case(case)
+    except Violation as v:
+        return v.clause == clause and not _listed(case, v)
+    except Discard:
+        return False
+    return False
+
+
+def _shrink(case, v, seconds):
+    """greedy, time-boxed: simpler flags, fewer script events, earlier injection - same failing clause"""
+    t0 = time.monotonic()
+    best = case
+
+    def attempt(cand):
+        nonlocal best
+        if time.monotonic() - t0 > seconds or cand == best:
+            return False
+        if _still_fails(cand, v.clause):
+            best = cand
+            return True
+        return False
+
+    def retarget(cand):
+        """the same exception kind in the same kind of callback, latest position first"""
+        inj = cand["inject"]
+        if inj is None:
+            return attempt(cand)
+        return any(attempt(dict(cand, inject=[j, inj[1], inj[2]])) for j in range(inj[0], -1, -1))
+
+    for key, plain in (("pop_ups", False), ("bp", False), ("focus", False), ("sigs", "default"),
+                       ("filter", {"drop": [], "map": []}), ("handled", [])):
+        attempt(dict(best, **{key: plain}))
+    progress = True
+    while progress and time.monotonic() - t0 <= seconds:
+        progress = False
+        for k in range(len(best["script"]) - 1):  # never the final 'q'
+            ev = best["script"][k]
+            cands = [best["script"][:k] + best["script"][k + 1:]]
+            if ev[0] == "keys" and len(ev) > 2:
+                cands.append(best["script"][:k] + [ev[:-1]] + best["script"][k + 1:])
+            if any(retarget(dict(best, script=sc)) for sc in cands):
+                progress = True
+                break
+    return best
+
+
 def shard(ctx):
     _preimport()
     all_units = units(ctx)
     mine = [u for i, u in enumerate(all_units) if ctx.mine(i)]
     complete = True
+    failed = None
     for u in mine:
-        if ctx.failure is not None:
+        if failed is not None:
             break
         if ctx.expired():
             complete = False
@@ -902,31 +979,46 @@ def shard(ctx):
         try:
             ctx.evaluate("session", u)
         except Violation as v:
-            ctx.fail("session", u, v)
+            failed = (u, v)
             break
         if not _LAST or _LAST.get("stalled"):
             ctx.count(f"unit-without-baseline:{tag}")
             continue
-        n = _LAST["n"]
-        ctx.count("callback-invocations", n)
-        for i in range(n):
-            for kind in ("exit", "boom"):
+        calls = [e for e in _LAST["log"] if e[0] in CALLBACKS]
+        assert [e[1] for e in calls] == list(range(_LAST["n"]))
+        ctx.count("callback-invocations", len(calls))
+        for i, cb in enumerate(e[0] for e in calls):
+            # SystemExit: every invocation (thorough), every other one (quick)
+            every = ctx.tier != "quick" or (i + len(calls)) % 2 == 0
+            for kind in ("exit", "boom", "abort") if every else ("exit", "boom"):
                 if ctx.expired():
                     complete = False
                     break
-                case = dict(u, inject=[i, kind])
-                if i > 0:
+                case = dict(u, inject=[i, kind, cb])
+                if _nontrivial(case):
                     ctx.nt_enum += 1
-                if len(ctx.samples) < 2 and i > 2 and u["loop"] != "select":
-                    ctx.samples.append({"sub": "session", "case": case})
+                    if len(ctx.samples) < 2 and i > 2:
+                        ctx.samples.append({"sub": "session", "case": case})
                 try:
                     ctx.evaluate("session", case)
                 except Violation as v:
-                    ctx.fail("session", case, v)
+                    failed = (case, v)
                     break
-            if ctx.failure is not None or not complete:
+            if failed is not None or not complete:
                 break
-    ctx.exhaustive["every callback invocation x {ExitMainLoop, Boom} of every unit"] = complete and ctx.failure is None
+    if failed is not None:
+        case, v = failed
+        ctx.fail("session", case, v)
+        small = _shrink(case, v, 15.0 if ctx.tier == "quick" else 60.0)
+        if small != case:
+            try:
+                check_case(small)
+            except Violation as v2:
+                ctx.fail("session", small, v2)
+            except Discard:
+                pass
+    name = "every callback invocation x {ExitMainLoop, Boom} (+ SystemExit, quick: every other one) of every unit"
+    ctx.exhaustive[name] = complete and failed is None
     for k, v in sorted(_STATS.items()):
         ctx.count(k, v)
 
